@@ -62,12 +62,16 @@ impl RecoveryThread {
 
         let thread = spawn(move || loop {
             for panicking_thread in &rx {
+                #[cfg(feature = "verif")]
+                crate::verif::point("recovery.after_recv");
                 let mut threads = threads.lock().unwrap();
 
                 // End the OS thread that panicked.
                 if let Some(thread) = threads[panicking_thread].os_thread.take() {
                     thread.join().ok();
                 }
+                #[cfg(feature = "verif")]
+                crate::verif::point("recovery.after_join");
 
                 // Start a new thread with the same ID.
                 let restarted_thread = Thread::new(
@@ -79,6 +83,8 @@ impl RecoveryThread {
 
                 // Put the new thread in the old thread's place.
                 threads[panicking_thread] = restarted_thread;
+                #[cfg(feature = "verif")]
+                crate::verif::point("recovery.after_respawn");
 
                 // Log that the thread restarted.
                 if let Some(monitor) = &monitor {
@@ -97,6 +103,8 @@ impl RecoveryThread {
 impl Drop for PanicMarker {
     fn drop(&mut self) {
         if panicking() {
+            #[cfg(feature = "verif")]
+            crate::verif::point("recovery.marker.before_send");
             self.1.send(self.0).ok();
         }
     }
